@@ -138,6 +138,17 @@ CLAIMS = {
         "Trusted: rustc / driver / engine; moka and foyer return what was inserted under a key; chunk objects are write-once (stated in the property).",
         "static analysis: value provenance, MIR edge dominance, sibling agreement over the trait's methods, ADT field table",
         "DESIGN.md §3 C16"),
+    "C06": (
+        "R1 every Ok exit of the buffering routine follows a successful WriteBuffer::append of the incoming batch; each append is dominated by the "
+        "schema_compatible true edge with no re-acquisition of the buffer lock in between (one critical section); BufferFull rejects; R2 WriteBuffer's "
+        "fields are private, only the reviewed mutators (append / take / clear) take &mut self, take() is mem::take + both counters zeroed, every flush's "
+        "input is the result of take() and take() runs under the write guard; R3 at the three chunk writers (flush, dual-write, back-fill) the registered "
+        "ChunkMetadata's path / row_count / min / max / size are computed from the encoded batch and uploaded bytes, registration follows a successful "
+        "upload, extract_min uses min and extract_max uses max; R4 ingest paths contain a fresh UUID; R5 exactly one send per channel per flush, after "
+        "registration, not in a loop, of the written batch. Not decided: multiset equality under interleavings, arrow concat / parquet encode.",
+        "Trusted: rustc / driver / engine; arrow compute::min/max and RecordBatch::num_rows; tokio RwLock guard semantics; the BUF_MUTATORS table.",
+        "static analysis: MIR edge dominance, value provenance across aggregates, guard-span liveness, who-may-mutate",
+        "DESIGN.md §3 C06"),
 }
 
 NOT_YET = "rule set under construction in this round; see DESIGN.md §3 for the planned static rules"
